@@ -88,7 +88,8 @@ def case(draw):
                              conflicts=False, sub_prob=(1, 2),
                              under_ignore=False))
     rendered = layout.render(lay)
-    state = {'tree': spec, 'mode': 'layout', 'ignores': []}
+    state = {'tree': spec, 'mode': 'layout', 'ignores': [],
+             'manifests': rendered}
     return {
         'tree': spec, 'manifests': rendered, 'tags': lay['tags'],
         'orig': draw(st.sampled_from(['unsigned', 'signed', 'signed',
@@ -106,6 +107,10 @@ def case(draw):
         'sub_signed': draw(st.integers(0, 2)) == 0,
         # library API: edit and save a second time with the same loader
         'second_save': draw(st.integers(0, 2)) == 0,
+        # the top-level Manifest itself may be stored compressed, and the
+        # update may (de)compress it
+        'top_fmt': draw(st.sampled_from(['', '', '', 'gz', 'xz'])),
+        'watermark': draw(st.sampled_from([None, None, 0, 10 ** 6])),
     }
 
 
@@ -167,7 +172,25 @@ def run_case(desc):
                 plain = f.read()
             with open(top, 'w') as f:
                 f.write(fx['full'].clearsign(plain, keyid=fx['A']))
+        top_fmt = desc.get('top_fmt') or ''
+        if top_fmt:
+            with open(top, 'rb') as f:
+                data = f.read()
+            os.unlink(top)
+            top = top + '.' + top_fmt
+            with open(top, 'wb') as f:
+                f.write(R.compress(data, top_fmt))
+        top_names = ['Manifest'] + ['Manifest.' + x
+                                    for x in ('gz', 'bz2', 'lzma', 'xz')]
+
+        def find_top():
+            found = [n for n in top_names
+                     if os.path.exists(os.path.join(root, n))]
+            return found
+        watermark = desc.get('watermark')
         mutate.apply_ops(root, desc['edits'])
+        if find_top() != [os.path.basename(top)]:
+            return skip('edits-touched-top-level')
         home = fx[desc['home']]
         os.environ['GNUPGHOME'] = home.home
         st_before = os.stat(top)
@@ -209,6 +232,8 @@ def run_case(desc):
                 argv += ['-k', keyid]
             if desc['force']:
                 argv.append('-f')
+            if watermark is not None:
+                argv += ['-c', str(watermark)]
             oc, records, _ = gem.cli(argv + [root])
             if oc.kind == 'return' and oc.value == 1:
                 msgs = [r.msg for r in gem.error_records(records)]
@@ -220,7 +245,9 @@ def run_case(desc):
                 m = gem.ManifestRecursiveLoader(
                     top, verify_openpgp=verify, openpgp_env=env,
                     sign_openpgp=desc['sign'], openpgp_keyid=keyid,
-                    hashes=desc['hashes'])
+                    hashes=desc['hashes'],
+                    **({'compress_watermark': watermark}
+                       if watermark is not None else {}))
                 m.update_entries_for_directory('')
                 m.save_manifests(force=desc['force'])
                 if desc.get('second_save'):
@@ -234,6 +261,11 @@ def run_case(desc):
         what = (f'update via {api}: originally {desc["orig"]}, sign='
                 f'{desc["sign"]}, key id {desc["keyid"]}, home '
                 f'{desc["home"]}')
+        if top_fmt or watermark is not None:
+            what += (f', top-level stored as {os.path.basename(top)}, '
+                     f'compress watermark {watermark}')
+            classes.append('top:' + (top_fmt or 'plain')
+                           + f':watermark:{watermark}')
         if sub_signed:
             classes.append('signed-sub-manifest')
         if desc.get('second_save') and api == 'lib':
@@ -246,12 +278,29 @@ def run_case(desc):
                     f'{what}: signed Manifest loaded although the signer is '
                     f'unknown', sig='unverifiable-loaded', classes=classes)
             return ok(classes=classes + ['load-failed'])
+        tops = find_top()
+        if len(tops) != 1:
+            if oc.kind != 'return':
+                return ok(classes=classes + ['failed-no-single-top'])
+            return violation(
+                f'{what}: after the update the top-level directory holds '
+                f'{tops!r}', sig='top-level-name', classes=classes)
+        old_top_name = os.path.basename(top)
+        top = os.path.join(root, tops[0])
+        if tops[0] != old_top_name:
+            classes.append('top-renamed')
         with open(top, 'rb') as f:
             raw = f.read()
         st_after = os.stat(top)
-        top_saved = (raw != raw_before
+        top_saved = (raw != raw_before or tops[0] != old_top_name
                      or st_after.st_mtime_ns != st_before.st_mtime_ns
                      or st_after.st_ino != st_before.st_ino)
+        try:
+            raw = R.decompress(raw, tops[0].partition('.')[2] or None)
+        except Exception as e:
+            return violation(f'{what}: {tops[0]} cannot be decompressed: '
+                             f'{e!r}', sig='top-level-corrupt',
+                             classes=classes)
         try:
             text = raw.decode('utf8')
         except UnicodeDecodeError:
@@ -330,7 +379,7 @@ def run_case(desc):
                     f'is {"disabled" if desc["sign"] is False else "not expected"}'
                     f': {text[:120]!r}', sig='unexpectedly-signed',
                     classes=classes)
-            sc = refscan.scan(root, 'Manifest', '', desc['hashes'])
+            sc = refscan.scan(root, tops[0], '', desc['hashes'])
             if sc.problems:
                 return violation(f'{what}: {sc.problems[:4]!r}',
                                  sig='scan', classes=classes)
@@ -361,7 +410,7 @@ def run_case(desc):
                 f'{what}: authenticated cleartext {clear!r} differs from '
                 f'the body in the file {body!r}', sig='cleartext-differs',
                 classes=classes)
-        sc = refscan.scan(root, 'Manifest', '', desc['hashes'])
+        sc = refscan.scan(root, tops[0], '', desc['hashes'])
         if sc.problems:
             return violation(
                 f'{what}: the signed entries do not describe the tree: '
@@ -370,9 +419,8 @@ def run_case(desc):
         os.environ['GNUPGHOME'] = fx['check'].home
         m2 = ManifestFile()
         try:
-            with open(top, 'r', encoding='utf8') as f:
-                m2.load(f, verify_openpgp=True,
-                        openpgp_env=SystemGPGEnvironment())
+            m2.load(io.StringIO(text), verify_openpgp=True,
+                    openpgp_env=SystemGPGEnvironment())
         except Exception as e:
             return violation(f'{what}: gemato cannot reload its own signed '
                              f'Manifest: {e!r}', sig='reload-failed',
